@@ -78,6 +78,10 @@ func c04Config(r *run.Rng) c04Cfg {
 	}
 	w, h := r.Range(1, 100), r.Range(1, 600)
 	cfg.rect = image.Rect(0, 0, w, h).Add(image.Pt(r.Intn(50), r.Intn(50)))
+	if r.Chance(1, 40) {
+		// an empty target rectangle: height 0 for the LOD test, nothing to scale to
+		cfg.rect = image.Rectangle{}
+	}
 	return cfg
 }
 
@@ -341,6 +345,10 @@ func c04Feed(c *run.Ctx, dst ivg.Destination, rz *rec.Raster, vm *ref.VM, cfg c0
 				fail("gradient-stop-offset", map[string]interface{}{"stop": k, "got": p.Offsets[k], "expected": exp.Offsets[k]})
 				return false
 			}
+		}
+		if cfg.rect.Empty() {
+			c.Count("gradient_on_empty_rectangle", 1)
+			continue // no pixel map to compose with
 		}
 		want := ref.Pix2Grad(exp.VB2Grad, cfg.vb, cfg.rect.Dx(), cfg.rect.Dy())
 		for k := 0; k < 6; k++ {
